@@ -427,6 +427,9 @@ impl Ctx {
             COp::BAdd { b: i, .. } | COp::BAddBundle { b: i, .. } | COp::BObs { b: i } | COp::BClear { b: i } => {
                 matches!(b(i), Some(BBox::Plain(_)) | Some(BBox::Clone(_)))
             }
+            COp::BAddBuilt { b: i, from } => {
+                i != from && matches!(b(i), Some(BBox::Plain(_)) | Some(BBox::Clone(_))) && matches!(b(from), Some(BBox::Built(_)))
+            }
             COp::BSpawn { b: i, w } => matches!(b(i), Some(BBox::Plain(_))) && self.has_world(*w),
             COp::BBuildDrop { b: i } => matches!(b(i), Some(BBox::Plain(_))),
             COp::BBuild { b: i, .. } => matches!(b(i), Some(BBox::Clone(_))),
@@ -1389,7 +1392,35 @@ impl Gen {
         }
         self.plan.push_back(Op::Cont(COp::CSpawn { b: c, w }));
         self.plan.push_back(Op::Cont(COp::CSpawn { b: c, w }));
+        if free.len() >= 3 && self.rng.chance(60) {
+            // … and the built bundle is poured into another builder, which is inspected and spawned
+            let d = free[2];
+            self.plan.push_back(Op::Cont(COp::BNew { b: d, clone: self.rng.chance(50) }));
+            self.plan.push_back(Op::Cont(COp::BAddBuilt { b: d, from: c }));
+            self.plan.push_back(Op::Cont(COp::BObs { b: d }));
+        }
         self.plan.push_back(Op::Obs { w });
+    }
+
+    /// scenario: a prepared query is (re)built while an archetype it matches exists but is empty, the
+    /// archetype is refilled without any new archetype appearing, and the prepared query is used again
+    fn plan_stale_prepared(&mut self, w: usize) {
+        let q = self.rng.below(crate::query_engine::NQUERIES);
+        let (k1, b1) = self.random_bundle();
+        let (k2, b2) = self.random_bundle();
+        let h = HRef::Lit(u32::MAX, u32::MAX);
+        let query = |path: &str| Op::Query { w, q, path: path.to_string(), h: h.clone(), n: 2, es: vec![] };
+        self.plan.push_back(Op::Spawn { w, k: k1, b: b1.clone() });
+        self.plan.push_back(query("prepared"));
+        self.plan.push_back(Op::Clear { w });
+        self.plan.push_back(Op::Spawn { w, k: k2, b: b2 });
+        self.plan.push_back(query("prepared"));
+        let b1b = self.bundle_for_types(&b1.iter().map(|c| c.0).collect::<Vec<_>>());
+        self.plan.push_back(Op::Spawn { w, k: k1, b: b1b });
+        self.plan.push_back(query("prepared"));
+        self.plan.push_back(query("prepared_mut"));
+        self.plan.push_back(query("prepared_view"));
+        self.plan.push_back(query("iter"));
     }
 
     fn cont_op(&mut self, ctx: &Ctx, w: usize) -> Op {
@@ -1409,7 +1440,14 @@ impl Gen {
                     let clone: Vec<usize> = c.builders.iter().filter(|(_, b)| matches!(b, BBox::Clone(_))).map(|(k, _)| *k).collect();
                     let built: Vec<usize> = c.builders.iter().filter(|(_, b)| matches!(b, BBox::Built(_))).map(|(k, _)| *k).collect();
                     let fresh = (0..6).find(|i| !c.builders.contains_key(i));
-                    match self.rng.weighted(&[6, 30, 8, 14, 4, 8, 3, 6, 8, 5, 5, 3]) {
+                    match self.rng.weighted(&[6, 30, 8, 14, 4, 8, 3, 6, 8, 5, 5, 3, 5]) {
+                        12 => {
+                            let mut all = plain.clone();
+                            all.extend(clone.iter());
+                            if let (Some(b), Some(from)) = (pick_key(&mut self.rng, all), pick_key(&mut self.rng, built.clone())) {
+                                return Op::Cont(COp::BAddBuilt { b, from });
+                            }
+                        }
                         0 => {
                             if let Some(b) = fresh {
                                 return Op::Cont(COp::BNew { b, clone: self.rng.chance(55) });
@@ -1621,6 +1659,12 @@ impl Gen {
                 return op;
             }
         }
+        if self.profile == Profile::Query && self.rng.chance(3) {
+            self.plan_stale_prepared(w);
+            if let Some(op) = self.plan.pop_front() {
+                return op;
+            }
+        }
         if matches!(self.profile, Profile::Mixed | Profile::Malformed) && self.rng.chance(1) {
             // out-of-contract probe: a bundle type that names a component type twice
             let k = NBUNDLES + self.rng.below(NBUNDLES_ALL - NBUNDLES);
@@ -1691,7 +1735,13 @@ impl Gen {
                     let mut kinds: Vec<u8> = vec![0, 1, 2];
                     self.rng.shuffle(&mut kinds);
                     let n = self.rng.below(4);
-                    let reads = kinds.into_iter().take(n).map(|k| (k, self.rng.chance(25))).collect();
+                    let mut reads: Vec<(u8, bool)> = kinds.into_iter().take(n).map(|k| (k, self.rng.chance(25))).collect();
+                    // now and then a report is asked for again (`added().len()` first, then the items, …)
+                    if !reads.is_empty() && self.rng.chance(25) {
+                        let again = reads[self.rng.below(reads.len())].0;
+                        let at = self.rng.below(reads.len() + 1);
+                        reads.insert(at, (again, self.rng.chance(25)));
+                    }
                     return Op::Track { w, reads };
                 }
                 1 => {
